@@ -35,6 +35,10 @@ CHECKS = {
    technique="TLC places a hostile step of each class at every reachable state of RtpsReader.tla (non-interference); hostile classes x protocol states replayed on the real Reader/Writer under a supervisor (rlimit, watchdog); TLC trace validation of the well-behaved peers' traffic",
    text="A catalogue of ~70 classes of well-framed but hostile datagrams (extreme sequence numbers, counts, bitmap sizes, fragment numbers/sizes, data sizes, flag combinations, lengths, truncation at every offset, wrong magic/version, unknown kinds), from a matched and from an unmatched peer, is injected into the real MessageReceiver->Reader and MessageReceiver->Writer at TLC-enumerated protocol states and at seeded random points. Per injection the harness records panic, wall time, bytes allocated by the thread, and the supervisor records process death or hang; the valid traffic of the other peers before and after must still be accepted by Trace_RtpsReader / Trace_RtpsWriter (non-interference).",
    note="not arbitrary byte strings (that is fuzzing); budgets 250 ms and 1 MiB + 256 x bytes per injection; address space 3 GiB; two known findings (GAP ranges, DATAFRAG dataSize) are listed by exact class signature"),
+ "C10": dict(level="model_checking", engine="tlc+qos-driver", design="§4 C10",
+   technique="RxO table transcribed as a TLA+ operator (QosRxO.tla); TLC enumerates all value pairs per policy in 9 contexts and checks the algebra; every case replayed on the real compliance_failure_wrt / update_writer_proxy / update_reader_proxy; TLC trace validation with the same operator as oracle",
+   text="TLC enumerates 3925 offered/requested pairs (every pair of values of each policy with the other policies absent, compatible, or exactly one other incompatible) and checks monotonicity of the table; each case plus seeded samples of the full product is judged by the real function and by a real Reader and a real Writer (match sets and status events), and TLC validates: verdict None iff no rule violated, reported policy really violated, both sides agree, the matching status events are truthful.",
+   note="value classes for durations and strengths; DDS 1.4 table as transcribed; policies absent on either side are skipped as the statement says"),
 }
 NOT_APPLICABLE = {}
 
